@@ -669,7 +669,7 @@ class History(Family):
 
     def gen(self, rng, tier):
         out = list(self.fixed_cases())
-        n = 110 if tier == "quick" else 700
+        n = 300 if tier == "quick" else 1600
         maxlen = 12 if tier == "quick" else 40
         for _ in range(n):
             length = rng.randint(1, maxlen) if rng.random() < 0.8 else rng.randint(1, 4)
@@ -718,8 +718,8 @@ D10_TEXT_OPS = [
 class DenseHistory(History):
     name = "dense_history"
     cls = "dense"
-    theorems = ("C04_dense_step_partial", "C04_dense_history_partial", "C04_last_write_wins", "C04_frame",
-                "C04_growth_zero_filled")
+    theorems = ("C04_dense_step_partial", "C04_dense_history_partial", "C04_dense_start", "C04_last_write_wins",
+                "C04_frame", "C04_growth_zero_filled")
 
     def fixed_cases(self):
         out = []
@@ -732,7 +732,8 @@ class DenseHistory(History):
 class SparseHistory(History):
     name = "sparse_history"
     cls = "sparse"
-    theorems = ("C04_sparse_step_partial", "C04_sparse_step_wf_partial", "C04_sparse_history_partial")
+    theorems = ("C04_sparse_step_partial", "C04_sparse_step_wf_partial", "C04_sparse_history_partial",
+                "C04_sparse_start")
 
     def fixed_cases(self):
         # deterministic member of the known finding "repeated entry in an index list of a sparse read"
@@ -753,7 +754,7 @@ class PairedHistory(Family):
         return shrink_case(case)
 
     def gen(self, rng, tier):
-        n = 80 if tier == "quick" else 500
+        n = 200 if tier == "quick" else 1000
         maxlen = 12 if tier == "quick" else 40
         return [gen_history(rng, "both", rng.randint(1, maxlen), malformed_rate=0.03) for _ in range(n)]
 
